@@ -572,11 +572,12 @@ func zzC10TraceNote(tag string, tr []int) {
 }
 
 // zzC10Regions: the known-finding regions of one call.
-//   possSkip:  a primary and at least two :around methods are applicable (the defect shows iff the
-//              first of them continues: firstAround is its marker id)
-//   noPrimary: some method is applicable but no primary
-//   possPrimNext: the most specific primary (marker firstPrim) has a next primary or runs under an
-//              :around (the defect shows iff it calls call-next-method)
+//
+//	possSkip:  a primary and at least two :around methods are applicable (the defect shows iff the
+//	           first of them continues: firstAround is its marker id)
+//	noPrimary: some method is applicable but no primary
+//	possPrimNext: the most specific primary (marker firstPrim) has a next primary or runs under an
+//	           :around (the defect shows iff it calls call-next-method)
 type zzC10Reg struct {
 	possSkip     bool
 	firstAround  int
@@ -627,9 +628,10 @@ const (
 )
 
 // zzC10CheckCall performs one call and compares it with the reference dispatcher.
-//   carve 0: the caller guarantees the call is outside both regions;
-//   carve 1: vrt.Carve both regions (a path inside a region ends here in the main run);
-//   carve 2: inside a region the call is made (it fills the cache) but not compared.
+//
+//	carve 0: the caller guarantees the call is outside both regions;
+//	carve 1: vrt.Carve both regions (a path inside a region ends here in the main run);
+//	carve 2: inside a region the call is made (it fills the cache) but not compared.
 func (g *zzC10Gen) checkCall(scope *slip.Scope, t *zzC10Table, argClasses []int, xname string, carve int) {
 	ord := g.order(argClasses)
 	reg := zzC10Regions(t, ord)
@@ -639,9 +641,10 @@ func (g *zzC10Gen) checkCall(scope *slip.Scope, t *zzC10Table, argClasses []int,
 		refHasPrimary = refHasPrimary || t.has[k*4+zzC10Primary]
 	}
 	// The fixnum argument is symbolic when the reference predicts a value; when it predicts
-	// no-applicable-method the value could only reach the condition's message text.
+	// no-applicable-method (or, with mode bit 2, possibly no-next-method) the value could only
+	// reach the condition's message text (printing a symbolic integer forks per digit).
 	var x int64 = 3
-	if argClasses[0] == 0 && refHasPrimary && xname != "" && g.cls == nil {
+	if argClasses[0] == 0 && refHasPrimary && xname != "" && g.cls == nil && g.mode&4 == 0 {
 		x = vrt.Int64(xname)
 		vrt.Assume(uint64(x+(1<<40)) < 1<<41) // |x| < 2^40 as one comparison (no fork)
 	}
@@ -814,10 +817,12 @@ func zzC10ArgList(mask int) []int {
 }
 
 // VerifC10Dispatch: obligation (i) dispatch = specification, one-argument generic.
-//   nspec: number of specializer classes (chain selection, the last is t)
-//   fixed, sym: the initial table (see build): bit slot = class index*4 + qualifier
-//   mode:  bit 0 explicit arguments to call-next-method, bit 1 next-method-p asked in :around
-//   rot:   rotation of the order in which the argument classes are called
+//
+//	nspec: number of specializer classes (chain selection, the last is t)
+//	fixed, sym: the initial table (see build): bit slot = class index*4 + qualifier
+//	mode:  bit 0 explicit arguments to call-next-method, bit 1 next-method-p asked in :around
+//	rot:   rotation of the order in which the argument classes are called
+//
 // All calls outside the two known-finding regions are made one after the other on the same generic
 // (so later ones run with a cache filled by earlier ones); every call that can be inside a region
 // gets a path of its own (choice "sel") with the regions carved.
